@@ -84,6 +84,62 @@ macro_rules! step_harness
         #[kani::stub(<crate::ticket::Ticket as PartialEq>::eq, crate::ticket::verif_eq::ticket_eq_words)]
         #[kani::stub(alloc::alloc::dealloc, crate::stubs::dealloc_noop)]
         #[kani::stub(<std::string::String as Clone>::clone, crate::stubs::string_clone_short)]
+        #[kani::stub(<crate::blob::FileStateVec as Clone>::clone, crate::blob::verif::fsv_clone_small)]
         fn $name() $body
     };
+}
+
+/*  Exact replacement for `<[T]>::sort` on slices of at most 3 elements (the
+    sorter harnesses' domain; longer slices are a harness-domain error): a
+    three-element sorting network.  std's sort goes through raw-pointer
+    insertion sort / driftsort machinery that CBMC spends minutes in. */
+pub fn sort_small<T : Ord>(v : &mut [T])
+{
+    let n = v.len();
+    assert!(n <= 3, "sort stub: more than 3 elements");
+    if n >= 2 && v[1] < v[0] { v.swap(0, 1); }
+    if n >= 3
+    {
+        if v[2] < v[1] { v.swap(1, 2); }
+        if v[1] < v[0] { v.swap(0, 1); }
+    }
+}
+
+/*  Exact replacements for String comparisons on strings of at most 2 bytes. */
+fn short_bytes(s : &String) -> (usize, u8, u8)
+{
+    let b = s.as_bytes();
+    let n = b.len();
+    assert!(n <= 2, "string comparison stub: string longer than the harness domain");
+    (n, if n >= 1 { b[0] } else { 0 }, if n >= 2 { b[1] } else { 0 })
+}
+
+pub fn string_eq_short(a : &String, b : &String) -> bool
+{
+    let (na, a0, a1) = short_bytes(a);
+    let (nb, b0, b1) = short_bytes(b);
+    na == nb && (na < 1 || a0 == b0) && (na < 2 || a1 == b1)
+}
+
+pub fn string_cmp_short(a : &String, b : &String) -> std::cmp::Ordering
+{
+    use std::cmp::Ordering;
+    let (na, a0, a1) = short_bytes(a);
+    let (nb, b0, b1) = short_bytes(b);
+    if na == 0 || nb == 0
+    {
+        return if na == nb { Ordering::Equal } else if na == 0 { Ordering::Less } else { Ordering::Greater };
+    }
+    if a0 != b0 { return if a0 < b0 { Ordering::Less } else { Ordering::Greater }; }
+    if na == 1 || nb == 1
+    {
+        return if na == nb { Ordering::Equal } else if na == 1 { Ordering::Less } else { Ordering::Greater };
+    }
+    if a1 != b1 { return if a1 < b1 { Ordering::Less } else { Ordering::Greater }; }
+    Ordering::Equal
+}
+
+pub fn string_partial_cmp_short(a : &String, b : &String) -> Option<std::cmp::Ordering>
+{
+    Some(string_cmp_short(a, b))
 }
